@@ -136,7 +136,7 @@ class Constructors:
             sc = (scale_p if comp < 3 else scale_v) + mp.mpf(10) ** -30
             err = abs(mp.mpf(gotv[comp]) - refs[comp]) / sc
             worst = max(worst, float(err))
-            if err > 1e-9:
+            if not (err <= 1e-9):
                 out.append("component %s is %r, numerical differentiation of the element map gives %s" % (CART[comp], gotv[comp], mp.nstr(refs[comp], 17)))
                 break
         return out, worst, pal
@@ -302,7 +302,7 @@ class Trajectories:
                 allow = self.tol(integ, order) * (self.nsteps / 92.0) ** 2 + 0.05 * unc[p][c] / s_
                 if rel / allow > worst:
                     worst = rel / allow
-                    if rel > allow:
+                    if not (rel <= allow):
                         bad = "variational particle %d.%s = %.12g, finite differences of shadow runs give %.12g (difference %.3g of the largest component, allowed %.3g)" % (p, CART[c], g[c], ref[p][c], rel, allow)
         return bad, worst, got
 
@@ -485,7 +485,7 @@ def run(ctx):
             d = max(abs(got[p][c] - ref[p][c]) / (sp_ if c < 3 else sv_) for p in got for c in range(6))
             fam = "bs:order2:%s%s" % ("+".join(sorted({s[1] for s in spec})), ":testparticle" if tp else "")
             wB[fam + ":vs-ias15"] = max(wB.get(fam + ":vs-ias15", 0), d / 1e-6)
-            if d > 1e-6:
+            if not (d <= 1e-6):
                 what = "+".join("%d.%s" % (s[0], s[2]) for s in spec)
                 ctx.violation("trajectory:%s:%s" % (fam, "+".join(s[2] for s in spec)), "%s BS order 2%s, parameter %s, %d steps: second-order variational particles differ from those of IAS15 by %.3g of the largest component (allowed 1e-6)" % (
                     sysn, " test-particle variation" if tp else "", what, ns, d), {"system": sysn, "integrator": ["bs", {}], "order": 2, "testparticle": tp, "spec": [list(s) for s in spec], "steps": ns})
